@@ -10,6 +10,11 @@ TECH = "symbolic execution of the real functions from /repo (z3 proxies in panda
 
 # per property: (level text, level note, design ref)
 CLAIMS = {
+    "C01": (
+        "The real do_call (clonal; purity symbolic in (0,1), 1 and None) is executed on a table with an autosomal, an X and a Y row (with a PAR genome: an X or Y row with symbolic coordinates) for every ploidy 1..6 x reference sex x sample sex x naming x genome; n in 0..12 and the purity are solver variables and log2 is tied to them through an uninterpreted exp2 with sound lemmas. z3 proves per path that cn = n, that the rewritten log2 equals log2(max(n/ploidy, 0.001)) + reference shift, that cn is an integer >= 0 for every log2 in [-30, 30], and that without purity cn is the nearest integer to r*2^log2. Bounded model check (3 rows, n <= 12), reals instead of floats.",
+        "Trusted: symx interception layer, z3 (nonlinear real arithmetic), exp2/log2 lemmas (each true of the real functions). With a genome and a free log2 the X/Y row takes coordinates from a concrete list of 12 representatives of every position class relative to PAR1/PAR2 (solver-chosen); the inversion harness keeps them symbolic.",
+        "DESIGN.md 4/C01",
+    ),
     "C06": (
         "Every feasible path of the real merge/flatten/subtract/intersection/subdivide/resize_ranges/total_range_size code on tables of <= 3 rows (quick; 4 thorough) with fully symbolic integer coordinates in [0, 10^6] is enumerated by z3; on each path the base-exactness oracle (one universally quantified position x) and the structural clauses are discharged as unsat. A bounded model check of the real code, not a proof: nothing is claimed beyond the row bounds.",
         "Trusted: the symx interception layer (object-dtype pandas semantics = int64 semantics, validated by replaying explored paths on the untouched code), z3; avg/min sizes of subdivide concrete.",
